@@ -107,6 +107,41 @@ theorem avRun_spec (w : World) (xid cid : Nat) (hx : xid ≠ 0) (hc : cid < 1000
     · exact ih4
 
 
+/-- a key that no row mentions keeps its value -/
+theorem get?_upsert_notMem (vu : PCV) : ∀ (av : PCV), Map.WF av → ∀ k, k ∉ vu.map (·.1) →
+    (Spec.upsertVolumes av vu).1.get? k = av.get? k := by
+  induction vu with
+  | nil => intro av _ k _; rfl
+  | cons e r ih =>
+    intro av hwf k hk
+    obtain ⟨k1, v1⟩ := e
+    simp only [List.map_cons, List.mem_cons, not_or] at hk
+    show (Spec.upsertVolumes (Map.insertWith Volumes.add k1 v1 av) r).1.get? k = _
+    rw [ih _ (Map.WF_insertWith _ _ _ hwf) k hk.2, Map.get?_insertWith _ _ _ hwf, if_neg hk.1]
+
+/-- a key mentioned by a row (keys distinct) reads old + excluded, or the inserted values -/
+theorem get?_upsert_mem (vu : PCV) : ∀ (av : PCV), Map.WF av → (vu.map (·.1)).Nodup → ∀ k v, (k, v) ∈ vu →
+    (Spec.upsertVolumes av vu).1.get? k = some (Spec.upsertRow av k v) := by
+  induction vu with
+  | nil => intro av _ _ k v h; simp at h
+  | cons e r ih =>
+    intro av hwf hnd k v hmem
+    obtain ⟨k1, v1⟩ := e
+    have hnd' := List.nodup_cons.mp hnd
+    show (Spec.upsertVolumes (Map.insertWith Volumes.add k1 v1 av) r).1.get? k = _
+    rcases List.mem_cons.mp hmem with e | hin
+    · cases e
+      rw [get?_upsert_notMem r _ (Map.WF_insertWith _ _ _ hwf) k hnd'.1, Map.get?_insertWith _ _ _ hwf, if_pos rfl]
+      unfold Spec.upsertRow
+      cases Map.get? av k <;> rfl
+    · have hne : k ≠ k1 := by
+        intro e; subst e
+        exact hnd'.1 (List.mem_map_of_mem (f := (·.1)) hin)
+      rw [ih _ (Map.WF_insertWith _ _ _ hwf) hnd'.2 k v hin, upsertRow_insertWith av hwf k1 k v1 v hne]
+
+theorem vuOf_keys (rows : List VolumeRow) : (vuOf rows).map (·.1) = rows.map avKeyOf := by
+  simp [vuOf, avKeyOf, List.map_map, Function.comp]
+
 theorem avAbs_of_table {s : St} {b : String} {rs : List Ver} {nr : Nat} (h : s.w.table? (avFull b) = some (avT b rs nr))
     (l : String) (k : Key) : avAbs s b l k = avView (latestView s.w s.xid) rs l k := by
   simp [avAbs, h, avT]
